@@ -32,7 +32,8 @@ PROP = {'lean_props': ['Comrak.Props.C01'],
  'assumptions': ['inputs are valid UTF-8 (the API takes &str); hooks standing for &str are only fed valid UTF-8',
                  'Spx::consume is modelled over natural numbers (no usize wrap): positions of parsed text nodes are far below 2^63']}
 
-TEXT = {'text': 'Proof (partial: per mechanism). Each function named by the anchors is modelled in Lean with every Rust panic site explicit (failed '
+TEXT = {'text_added': 'Also run: tables that reach the auto-completion cap (all renderers), container markers followed by a tab and the line end before lines that start with a multi-byte character.',
+ 'text': 'Proof (partial: per mechanism). Each function named by the anchors is modelled in Lean with every Rust panic site explicit (failed '
          'assert!/unreachable!/index/arithmetic overflow = none) and every loop structurally recursive or fuelled: the repaired '
          'shortest_unused_sequence (result in 1..=32, exits within 32 iterations, a result below 32 is really an unused run length and the '
          'shortest one; the pinned i32 version is kept as a witness: all 32 bits set => the loop never exits, a run of 32 trips the shift check), '
